@@ -145,6 +145,15 @@ func (p *parseVisitor) VisitSource(c parser.ISourceContext, pushAsset func(), is
 				if ty != machine.TypeMonetary {
 					return nil, nil, nil, LogicError(c, errors.New("wrong type: expected monetary"))
 				}
+				// the bound is a monetary of its own: it must be in the asset being sent
+				// (adding a zero amount of that asset fails for any other)
+				pushAsset()
+				err := p.PushInteger(machine.NewNumber(0))
+				if err != nil {
+					return nil, nil, nil, LogicError(c, err)
+				}
+				p.AppendInstruction(program.OP_MONETARY_NEW)
+				p.AppendInstruction(program.OP_MONETARY_ADD)
 				p.AppendInstruction(program.OP_TAKE_ALL)
 			case *parser.SrcAccountOverdraftUnboundedContext:
 				pushAsset()
